@@ -84,7 +84,9 @@ def harvest(wd: Path):
 
 
 _ADDR = re.compile(r"0x[0-9a-fA-F]+")
-_NONDET = re.compile(r"\b(random|time|datetime|uuid|secrets|urandom|getpid|id|hash|threading|asyncio)\b")
+_NONDET_SURE = re.compile(r"\b(uuid|secrets|urandom|getpid|perf_counter|monotonic|SystemRandom)\b")   # not executed at all
+_SEED = "import random as _sweep_random_\n_sweep_random_.seed(0)\ndel _sweep_random_\n"   # in front of programs that use `random`
+_NONDET = re.compile(r"\b(time|datetime|uuid|secrets|urandom|getpid|id|hash|threading|asyncio)\b")
 
 
 def run_exec(src: str, cwd: str, timeout: float | None = None):
@@ -262,23 +264,26 @@ def prelude_for(src: str) -> str:
 def _compare(before, after, cwd, complete_imports, use_prelude, run, aux):
     """run: runner of the two decisive executions (before, after); aux: runner of the auxiliary ones (determinism
     re-run, run after import completion)"""
-    a = run(before, cwd)
-    pre = ""
+    if _NONDET_SURE.search(before):
+        return {"class": "nondeterministic", "prelude": False}      # outside the class of closed deterministic programs
+    seed = _SEED if re.search(r"\brandom\b", before) else ""
+    a = run(seed + before, cwd)
+    pre = seed
     if a[0] == "exc:NameError" and use_prelude:
-        pre = prelude_for(before)
-        if pre:
+        pre = seed + prelude_for(before)
+        if pre != seed:
             a = run(pre + before, cwd)
     if a[0] != "ok":
-        return {"class": "not-executable", "before_status": a[0], "prelude": bool(pre)}
+        return {"class": "not-executable", "before_status": a[0], "prelude": pre != seed}
     b = run(pre + after, cwd)
     if b[0] == "timeout":       # the original finished in time: exclude a time-out that is due to the load of the machine
         b = aux(pre + after, cwd, 4 * TIMEOUT)
     if a == b:
-        return {"class": "same", "stdout": a[1][:200], "prelude": bool(pre)}
+        return {"class": "same", "stdout": a[1][:200], "prelude": pre != seed}
     if _NONDET.search(before) or (aux(pre + before, cwd) != a and run_exec(pre + before, cwd) != a):
-        return {"class": "nondeterministic", "prelude": bool(pre)}      # outside the class of closed deterministic programs
+        return {"class": "nondeterministic", "prelude": pre != seed}      # outside the class of closed deterministic programs
     res = {"class": "DIFFERENT", "before_status": a[0], "before_stdout": a[1][:600],
-           "after_status": b[0], "after_stdout": b[1][:600], "prelude": bool(pre)}
+           "after_status": b[0], "after_stdout": b[1][:600], "prelude": pre != seed}
     if b[0] == "exc:NameError" and complete_imports is not None:
         try:
             with common.quiet():
@@ -288,7 +293,7 @@ def _compare(before, after, cwd, complete_imports, use_prelude, run, aux):
             b2 = None
         if b2 is not None and b2[0] == "exc:ModuleNotFoundError":
             # the completed import is a third-party module that is not installed here (numpy, pandas): no verdict
-            return {"class": "after-needs-uninstalled-module", "prelude": bool(pre)}
+            return {"class": "after-needs-uninstalled-module", "prelude": pre != seed}
         res["same_after_import_completion"] = b2 == a
     return res
 
@@ -1276,6 +1281,8 @@ def _boolop_stats(tree):
 @_sig("boolop_operands_with_calls_dropped")
 def _sig_boolop_operands_with_calls_dropped(c):
     # symbolic_math: `t(1) and t(0) and not t(1)` -> False: operands whose evaluation has effects are removed
+    if not c["rule"].startswith("symbolic_math."):
+        return False
     src, out = _st(c)
     return _boolop_stats(out)[1] < _boolop_stats(src)[1]
 
@@ -1283,6 +1290,8 @@ def _sig_boolop_operands_with_calls_dropped(c):
 @_sig("boolop_total_order_assumed")
 def _sig_boolop_total_order_assumed(c):
     # symbolic_math: `n <= 5 or n >= 3` -> True, `n == 2 or n != 2` -> True: false for NaN / partial orders
+    if not c["rule"].startswith("symbolic_math."):
+        return False
     src, out = _st(c)
     return bool(re.search(r"\bnan\b", c["source"], re.I)) and _boolop_stats(out)[0] < _boolop_stats(src)[0] and _boolop_stats(src)[1] == 0
 
@@ -1291,6 +1300,8 @@ def _sig_boolop_total_order_assumed(c):
 def _sig_boolop_value_replaced_by_truth_value(c):
     # symbolic_math: `x and False and y` -> False, `(a and b) or (a and not b)` -> a: the VALUE of and/or is one of
     # its operands (0, '', [] ...), the simplification only preserves the truth value
+    if not c["rule"].startswith("symbolic_math."):
+        return False
     src, out = _st(c)
     s, o = _boolop_stats(src), _boolop_stats(out)
     return o[0] < s[0] and s[1] == 0 and not re.search(r"\bnan\b", c["source"], re.I)
